@@ -20,6 +20,7 @@ import (
 	"bytes"
 	"encoding/binary"
 	"fmt"
+	"io"
 	"math/big"
 	"reflect"
 	"runtime"
@@ -1145,27 +1146,48 @@ func c11DecodeReq(t *c11Ty, data []byte) (string, int) {
 // and scale.NewDecoder over readers that deliver the data differently (all legal io.Readers).
 var c11ReaderKinds = []string{"um", "rdr", "half", "one", "derr"}
 
+// c11Abort stops a decode (sentinel panic) at the first read request above limit: such a request is
+// a declared byte-string length far beyond the input; the value is not worth materialising.
+type c11Abort struct {
+	r     io.Reader
+	limit int
+}
+
+type c11TooBig struct{}
+
+func (a *c11Abort) Read(p []byte) (int, error) {
+	if len(p) > a.limit {
+		panic(c11TooBig{})
+	}
+	return a.r.Read(p)
+}
+
 func c11DecodeVia(t *c11Ty, kind string, data []byte) (out string) {
 	defer func() {
 		if r := recover(); r != nil {
+			if _, ok := r.(c11TooBig); ok {
+				out = "err" // read request above len(input)+65536: counted as a failure (model: same)
+				return
+			}
 			out = "panic"
 		}
 	}()
 	dst := reflect.New(t.goType())
 	dst.Elem().Set(t.zero())
 	cp := append([]byte{}, data...)
+	guard := func(r io.Reader) io.Reader { return &c11Abort{r: r, limit: len(data) + 65536} }
 	var err error
 	switch kind {
 	case "um":
 		err = Unmarshal(cp, dst.Interface())
 	case "rdr":
-		err = NewDecoder(bytes.NewReader(cp)).Decode(dst.Interface())
+		err = NewDecoder(guard(bytes.NewReader(cp))).Decode(dst.Interface())
 	case "half":
-		err = NewDecoder(iotest.HalfReader(bytes.NewReader(cp))).Decode(dst.Interface())
+		err = NewDecoder(guard(iotest.HalfReader(bytes.NewReader(cp)))).Decode(dst.Interface())
 	case "one":
-		err = NewDecoder(iotest.OneByteReader(bytes.NewReader(cp))).Decode(dst.Interface())
+		err = NewDecoder(guard(iotest.OneByteReader(bytes.NewReader(cp)))).Decode(dst.Interface())
 	case "derr":
-		err = NewDecoder(iotest.DataErrReader(bytes.NewReader(cp))).Decode(dst.Interface())
+		err = NewDecoder(guard(iotest.DataErrReader(bytes.NewReader(cp)))).Decode(dst.Interface())
 	}
 	if err != nil {
 		return "err"
@@ -1173,8 +1195,22 @@ func c11DecodeVia(t *c11Ty, kind string, data []byte) (out string) {
 	return "ok:" + vhHex(c11RefEncode(t, dst.Elem()))
 }
 
+// c11HasByteString reports whether t contains a byte string or string.
+func c11HasByteString(t *c11Ty) bool {
+	if t.kind == "bytes" || t.kind == "str" {
+		return true
+	}
+	for _, s := range t.sub {
+		if c11HasByteString(s) {
+			return true
+		}
+	}
+	return false
+}
+
 // c11DecodeAll is c11Decode followed, for every reader kind whose outcome (err / value) differs
-// from the bytes.Buffer outcome, by " <kind>=<outcome>".  Skipped when the decoder allocated a
+// from the bytes.Buffer outcome, by " <kind>=<outcome>".  The chunking readers (half, one, derr) are
+// used for types without byte strings and for a bare byte string / string.  Skipped when the decoder allocated a
 // read buffer of more than len(input)+65536 bytes (such values are not materialised).
 func c11DecodeAll(t *c11Ty, data []byte) string {
 	out, req := c11DecodeReq(t, data)
@@ -1186,7 +1222,14 @@ func c11DecodeAll(t *c11Ty, data []byte) string {
 	if f[0] == "ok" {
 		base = "ok:" + f[1]
 	}
-	for _, k := range c11ReaderKinds {
+	kinds := c11ReaderKinds
+	if !(t.kind == "bytes" || t.kind == "str" || !c11HasByteString(t)) {
+		// a chunking reader desynchronises decodeBytes (known finding bytes-chunked-read); what follows
+		// is parsed out of the middle of the string and declares random lengths, which the decoder
+		// allocates and clears before reading: far too slow to run on every case
+		kinds = kinds[:2]
+	}
+	for _, k := range kinds {
 		if o := c11DecodeVia(t, k, data); o != base {
 			out += " " + k + "=" + o
 		}
